@@ -403,7 +403,7 @@ fn execute_history(run: &Run, opts: &ExecOpts) -> Outcome {
                     let mut fresh: Vec<FreshResult> = vec![];
                     for s in &seeds {
                         cx.out.stats.fresh_builds += 2;
-                        let v = Variant { hash_seed: *s, preregister: vec![], repeat: false, diag_first: *diag_first, root: None };
+                        let v = Variant { hash_seed: *s, preregister: vec![], repeat: false, diag_first: *diag_first, root: None, earlier: vec![] };
                         let fr = fresh_process(&fs_now, &entry, &run.project.settings, &v);
                         cx.log_triple(&fr.first);
                         cx.out.max_call_cpu_ms = cx.out.max_call_cpu_ms.max(fr.max_call_cpu_ms);
@@ -592,6 +592,51 @@ pub fn final_fs(run: &Run) -> Fs {
     fs
 }
 
+/// Does any file-system state the session (or a fresh process) may have read during the run
+/// contain a constructor-free alias cycle?  The session's view is a mix: a delivered / updated file
+/// holds the content of the moment of the call (a torn save may be all it ever saw), every other
+/// file the content at the build that first read it.  Used only to attribute KF-C04-4.
+pub fn any_view_alias_cycle(run: &Run) -> Option<(String, String)> {
+    let mut fs = run.project.files.clone();
+    let mut view: Fs = Fs::new();
+    let mut last_checked: Option<(Fs, Fs)> = None;
+    for op in &run.ops {
+        let mut reads = false;
+        match op {
+            Op::Write { f, content } => {
+                fs.insert(f.clone(), content.clone());
+            }
+            Op::WritePrefix { f, content, k } => {
+                let k = crate::edits::char_boundary_floor(content, *k);
+                fs.insert(f.clone(), content[..k].to_string());
+            }
+            Op::Delete { f } => {
+                fs.remove(f);
+            }
+            Op::Deliver { f } | Op::Update { f } => {
+                if let Some(c) = fs.get(f) {
+                    view.insert(f.clone(), c.clone());
+                }
+                reads = true;
+            }
+            Op::Rebuild { .. } | Op::Checkpoint { .. } => reads = true,
+            _ => {}
+        }
+        if reads {
+            for (f, c) in &fs {
+                view.entry(f.clone()).or_insert_with(|| c.clone());
+            }
+            if last_checked.as_ref().map(|(a, b)| a != &fs || b != &view).unwrap_or(true) {
+                if let Some(x) = crate::edits::noncontractive_alias_cycle(&view).or_else(|| crate::edits::noncontractive_alias_cycle(&fs)) {
+                    return Some(x);
+                }
+                last_checked = Some((fs.clone(), view.clone()));
+            }
+        }
+    }
+    crate::edits::noncontractive_alias_cycle(&fs)
+}
+
 /// I-C10: the triple is identical across all variants of a fresh build of the same SimFs.
 fn execute_c10(run: &Run, opts: &ExecOpts) -> Outcome {
     let mut cx = Ctx { run, opts, out: Outcome::default(), log: 0xcbf29ce484222325, trace: vec![], touched: BTreeSet::new(), replaced_cached: false, evaluated_checkpoint: false };
@@ -620,6 +665,9 @@ fn execute_c10(run: &Run, opts: &ExecOpts) -> Outcome {
         }
         if v.diag_first {
             cx.out.stats.fire("diagnostics_api_first");
+        }
+        if !v.earlier.is_empty() {
+            cx.out.stats.fire("earlier_revisions_compiled_first");
         }
         results.push(fr);
     }
@@ -663,6 +711,11 @@ fn execute_c10(run: &Run, opts: &ExecOpts) -> Outcome {
                     }
                 }
             }
+        }
+        let differing: Vec<usize> = (1..results.len()).filter(|i| results[*i].first != results[0].first).collect();
+        if differing.iter().all(|i| !run.variants[*i].earlier.is_empty()) && run.variants[0].earlier.is_empty() {
+            dim = "after-earlier-revisions";
+            pair = (0, differing[0]);
         }
         let what = {
             let (a, b) = (&results[pair.0].first, &results[pair.1].first);
